@@ -133,7 +133,7 @@ class Frame:
 # obligations
 # ----------------------------------------------------------------------------------------------
 class Obligation:
-    __slots__ = ("oid", "kind", "line", "status", "secs", "model", "smt2", "path", "detail", "backend")
+    __slots__ = ("oid", "kind", "line", "status", "secs", "model", "smt2", "path", "detail", "backend", "props")
 
     def __init__(self, oid, kind, line):
         self.oid = oid
@@ -146,6 +146,7 @@ class Obligation:
         self.path = None
         self.detail = ""
         self.backend = "z3-5.1-api"
+        self.props = None
 
 
 # ----------------------------------------------------------------------------------------------
@@ -184,6 +185,7 @@ class Engine:
         self.loop_old: dict = {}
         self.bound_vars = []
         self.byte_arrays = {}
+        self.try_depth = 0
         self.cur_frame = None
         self.no_note = False
         self.goal_mode = False
@@ -250,10 +252,11 @@ class Engine:
                 return i
         return n - 1
 
-    def prove(self, oid, goal, kind, node=None, assume_after=True, detail="", frame=None, extra=None):
+    def prove(self, oid, goal, kind, node=None, assume_after=True, detail="", frame=None, extra=None, props=None):
         """Register obligation `oid` on this path: pc => goal."""
         if isinstance(goal, bool):
             goal = z3.BoolVal(goal)
+        ob_props = props
         known = self.vf.known.get(oid)
         if known and frame is not None:
             # relativised re-check: the obligation must hold outside every listed finding class
@@ -262,6 +265,7 @@ class Engine:
             self.vf.relativised.add(oid)
         ob = Obligation(oid, kind, getattr(node, "lineno", None))
         ob.detail = detail
+        ob.props = ob_props
         ob.path = list(self.trace[: self.pos])
         g = z3.simplify(goal)
         t0 = time.time()
@@ -650,6 +654,9 @@ class Engine:
         if m is None:
             raise OutOfSubset(s, f"statement {type(s).__name__}")
         self.run_ghost_updates(s, frame, "before")
+        if isinstance(s, (ast.If, ast.Try, ast.With, ast.For, ast.While)) and self.abstractable(s, frame):
+            self.abstract_stmt(s, frame)
+            return
         m(s, frame)
         self.run_ghost_updates(s, frame, "after")
 
@@ -756,6 +763,35 @@ class Engine:
         if isinstance(v, VOpaque) and getattr(v, "exc", None) is not None:
             raise v.exc
         raise PyExc(None, site=s.lineno, any_of="Exception")
+
+    def abstractable(self, s, frame):
+        """options focus=[names]: a conditional that neither mentions a focus name nor leaves the
+        function / loop can be replaced by the havoc of what it assigns (sound over-approximation
+        that avoids forking on conditions irrelevant to the obligations of this contract)."""
+        con = getattr(frame, "contract", None)
+        foc = con.options.get("focus") if con is not None else None
+        if not foc or self.call_depth > 0:
+            return False
+        for n in ast.walk(s):
+            if isinstance(n, ast.Name) and n.id in foc:
+                return False
+            if isinstance(n, (ast.Return, ast.Break, ast.Continue, ast.Yield, ast.YieldFrom,
+                              ast.FunctionDef, ast.Nonlocal, ast.Global)):
+                return False
+        return True
+
+    def abstract_stmt(self, s, frame):
+        rebound, mutated, calls = assigned_names([s])
+        for name in sorted(rebound):
+            frame.set(name, VOpaque(tag=f"abstracted:{name}"))
+        for name in sorted(mutated):
+            cur = frame.lookup(name)
+            if isinstance(cur, VRef):
+                self.havoc_effects(cur, mutated[name], name)
+        may_raise = bool(calls) or any(isinstance(n, (ast.Raise, ast.Assert)) for n in ast.walk(s))
+        if may_raise and not self.faults_pruned():
+            if self.branch(fresh_bool("abstracted_raises"), free=True):
+                raise PyExc(None, site=s.lineno, any_of=self.fault_bound())
 
     def st_If(self, s, frame):
         v = self.eval(s.test, frame)
@@ -1079,7 +1115,11 @@ class Engine:
 
         try:
             try:
-                self.exec_block(s.body, frame)
+                self.try_depth += 1
+                try:
+                    self.exec_block(s.body, frame)
+                finally:
+                    self.try_depth -= 1
             except PyExc as e:
                 handled = False
                 for h in s.handlers:
@@ -1126,7 +1166,11 @@ class Engine:
         if item.optional_vars is not None:
             self.assign(item.optional_vars, entered, frame)
         try:
-            self.exec_with(s, i + 1, frame)
+            self.try_depth += 1
+            try:
+                self.exec_with(s, i + 1, frame)
+            finally:
+                self.try_depth -= 1
         except PyExc as e:
             suppressed = self.models.ctx_exit(self, mgr, e, item.context_expr, frame)
             if not suppressed:
@@ -1385,6 +1429,21 @@ class Engine:
         return VTuple([self.eval(x, frame) for x in e.elts])
 
     def ev_List(self, e, frame):
+        if any(isinstance(x, ast.Starred) for x in e.elts):
+            # [a, b, *rest]: leading elements are known, the unpacked tail is not tracked
+            lead = []
+            for x in e.elts:
+                if isinstance(x, ast.Starred):
+                    break
+                lead.append(self.eval(x, frame))
+            for x in e.elts[len(lead):]:
+                self.eval(x.value if isinstance(x, ast.Starred) else x, frame)
+            arr = fresh_arr("starlist", Val)
+            n = fresh_int("starlist_len")
+            self.assume(n >= len([x for x in e.elts if not isinstance(x, ast.Starred)]))
+            for i, v in enumerate(lead):
+                self.assume(arr[i] == self.models.to_val(self, v))
+            return self.alloc(seq_from_array(arr, n, "list", esort="val"))
         items = [self.eval(x, frame) for x in e.elts]
         return self.models.make_list(self, items, e)
 
@@ -1687,10 +1746,17 @@ class Engine:
             self.guard_typestate_args(what, args, node)
             for a in args:
                 self.havoc_reachable(a)
-        if may_raise and not self.spec:
+        if may_raise and not self.spec and not self.faults_pruned():
             if self.branch(fresh_bool("opaque_raises"), free=True):
                 raise PyExc(None, site=getattr(node, "lineno", None), any_of=self.fault_bound())
         return VOpaque(tag=f"ret:{what}")
+
+    def faults_pruned(self):
+        """options faults="caught": an opaque callee's exception is explored only where the function
+        itself can observe it (inside a try/with); elsewhere it merely leaves the function, which
+        carries no obligation for contracts without exceptional postconditions."""
+        cur = getattr(self.vf, "current", None)
+        return cur is not None and cur.options.get("faults") == "caught" and self.try_depth == 0 and self.call_depth == 0
 
     def fault_bound(self):
         cur = getattr(self.vf, "current", None)
@@ -1854,7 +1920,8 @@ class Engine:
         pfx = self.vf.oid_prefix(frame)
         line = getattr(node, "lineno", 0) - (frame.fn_node.lineno if getattr(frame, "fn_node", None) is not None else 0)
         for j, r in enumerate(con.requires):
-            self.prove(f"{pfx}:pre-at-call:{con.func}#{j + 1}", self.eval_goal(r, cfr, extra=env), "pre-at-call", node, detail=r, frame=cfr, extra=env)
+            self.prove(f"{pfx}:pre-at-call:{con.func}#{j + 1}", self.eval_goal(r, cfr, extra=env), "pre-at-call", node, detail=r, frame=cfr, extra=env,
+                       props=(con.prop if con.trusted and con.file in ("<stdlib>", "<abstract>") and con.options.get("own_props", True) else None))
         old = (dict(env), dict(self.heap))
         # havoc what the callee may modify
         for mname in con.modifies:
